@@ -6,3 +6,9 @@ Import ListNotations.
 Local Open Scope string_scope.
 Example C18_init_only_creates : init_ok = [].
 Proof. vm_compute. reflexivity. Qed.
+
+(** no command renames, removes or rewrites log files directly: every command keeps using the file
+    getEventsPath chooses, through the storage primitives only. *)
+Example C18_commands_never_move_the_log :
+  (concat (map mutating_ok mutating_entries) ++ concat (map readonly_ok readonly_entries))%list = [].
+Proof. vm_compute. reflexivity. Qed.
